@@ -290,32 +290,21 @@ class C02:
             return ("attr", SELF, t)
 
         # get_id
+        from sa.memo import memo_verdict, scenarios
         s = ctx.summ.of_func(ADAPTERS_MOD, "DataAdapter.get_id")
         obj = ("param", s.params[1])
-        stores = [e for e in s.of("store") if e.term[1][0] == "sub" and e.term[1][1] == store_attr("_mapping")]
         site = f"{file}:{s.node.lineno} DataAdapter.get_id"
-        if len(stores) != 1:
-            ctx.undec("R02.4", site, f"expected one insertion into self._mapping, found {len(stores)}")
+        key = ("call", ("attr", SELF, "_get_soundevent_key"), (obj,), ())
+        newid = ("call", ("attr", SELF, "get_new_id"), (obj,), ())
+        sc = scenarios(s, store_attr("_mapping"), key)
+        good, why = memo_verdict(sc, store_attr("_mapping"), key, lambda v: v == newid)
+        if good:
+            ctx.ok("R02.4", site, "a known key keeps its id; an unseen key gets get_new_id(obj), recorded once and returned")
         else:
-            st = stores[0]
-            key, val = st.term[1][2], st.term[2]
-            keyok = key[0] == "call" and key[1] == ("attr", SELF, "_get_soundevent_key") and key[2] == (obj,)
-            guard = ("cmp", "notin", key, store_attr("_mapping")) in conjuncts(st.live)
-            newid = val[0] == "call" and val[1] == ("attr", SELF, "get_new_id") and val[2] == (obj,)
-            call_before = any(e.kind == "call" and e.term == val and e.idx < st.idx for e in s.events)
-            if keyok and guard and newid and call_before:
-                ctx.ok("R02.4", site, "new id obtained from get_new_id(obj) before insertion, only for unseen keys")
-            else:
-                ctx.bad("R02.4", file, "DataAdapter.get_id", "self._mapping[key] = obj_id",
-                        "id allocation is not `if key not in _mapping: _mapping[key] = get_new_id(obj)` with the key "
-                        "from _get_soundevent_key(obj): ids may collide or be re-allocated for known objects "
-                        f"(key ok={keyok}, guard={guard}, value from get_new_id={newid})", st.lineno)
-            rets = s.returns
-            if len(rets) == 1 and rets[0].term == ("sub", store_attr("_mapping"), key):
-                ctx.ok("R02.4", site, "returns the id recorded for the key")
-            else:
-                ctx.bad("R02.4", file, "DataAdapter.get_id", "return obj_id",
-                        f"get_id does not return self._mapping[key]: {show(rets[0].term) if rets else '-'}", s.node.lineno)
+            ctx.bad("R02.4", file, "DataAdapter.get_id", "self._mapping[key] = obj_id",
+                    "id allocation is not `if key not in _mapping: _mapping[key] = get_new_id(obj)` / `return _mapping[key]` "
+                    f"with the key from _get_soundevent_key(obj): {why}; ids may collide or be re-allocated for known objects",
+                    s.node.lineno)
         # TagAdapter.get_new_id
         tm = "soundevent.io.aoef.tag"
         s = ctx.summ.of_func(tm, "TagAdapter.get_new_id")
@@ -356,27 +345,20 @@ class C02:
         s = ctx.summ.of_func(ADAPTERS_MOD, "DataAdapter.to_aoef")
         obj = ("param", s.params[1])
         site = f"{file}:{s.node.lineno} DataAdapter.to_aoef"
-        stores = [e for e in s.of("store") if e.term[1][0] == "sub" and e.term[1][1] == store_attr("_aoef_store")]
         idterm = ("call", ("attr", SELF, "get_id"), (obj,), ())
-        if not stores:
-            ctx.undec("R02.5", site, "no insertion into self._aoef_store found")
-        for st in stores:
-            key, val = st.term[1][2], st.term[2]
-            asm = ("call", ("attr", SELF, "assemble_aoef"), (obj, idterm), ())
-            guard = ("cmp", "notin", idterm, store_attr("_aoef_store")) in conjuncts(st.live)
-            if key == idterm and val == asm and guard:
-                ctx.ok("R02.5", site, "_aoef_store[id] = assemble_aoef(obj, id): stored only after nested conversions finished")
-            else:
-                ctx.bad("R02.5", file, "DataAdapter.to_aoef", "self._aoef_store[obj_id] = aoef_obj",
-                        f"the object is not stored as the result of assemble_aoef(obj, get_id(obj)) under "
-                        f"`id not in _aoef_store` (stored: {show(val)[:60]}): a child could precede its parent in the "
-                        f"top-level list or an entry could be overwritten", st.lineno)
-        rets = s.returns
-        if len(rets) == 1 and rets[0].term == ("sub", store_attr("_aoef_store"), idterm):
-            ctx.ok("R02.5", site, "returns the stored document object (whose id the caller references)")
+        asm = ("call", ("attr", SELF, "assemble_aoef"), (obj, idterm), ())
+        sc = scenarios(s, store_attr("_aoef_store"), idterm)
+        good, why = memo_verdict(sc, store_attr("_aoef_store"), idterm, lambda v: v == asm)
+        if good and sc["present"].calls(("attr", SELF, "assemble_aoef")):
+            good, why = False, "an already registered object is assembled again (its nested objects are converted twice)"
+        if good:
+            ctx.ok("R02.5", site, "_aoef_store[id] = assemble_aoef(obj, id) once per id, stored only after the nested "
+                                  "conversions finished; the stored document object is returned")
         else:
-            ctx.bad("R02.5", file, "DataAdapter.to_aoef", "return self._aoef_store[obj_id]",
-                    f"to_aoef does not return the stored object: {show(rets[0].term) if rets else '-'}", s.node.lineno)
+            ctx.bad("R02.5", file, "DataAdapter.to_aoef", "self._aoef_store[obj_id] = aoef_obj",
+                    f"to_aoef is not `if id not in _aoef_store: _aoef_store[id] = assemble_aoef(obj, id)` / `return "
+                    f"_aoef_store[id]` with id = get_id(obj): {why}; a child could precede its parent in the top-level list, "
+                    f"an entry could be overwritten or the caller could reference an unregistered object", s.node.lineno)
         s = ctx.summ.of_func(ADAPTERS_MOD, "DataAdapter.values")
         site = f"{file}:{s.node.lineno} DataAdapter.values"
         vals = ("call", ("attr", store_attr("_aoef_store"), "values"), (), ())
@@ -454,8 +436,8 @@ def run(ctx: Ctx, who_may_write=True):
     ctx.rule("R02.1", "no conversion can write a store after it was snapshot (evaluation order)", 50)
     ctx.rule("R02.2", "reference keywords derive from the owning adapter's to_aoef with matching data class", 30)
     ctx.rule("R02.3", "sub-adapters are wired from the collection's shared adapters, to the right parameters", 60)
-    ctx.rule("R02.4", "id allocation: before insertion, dense tag ids, tag key == stored fields", 4)
-    ctx.rule("R02.5", "store after assemble; values() in insertion order; no overrides", 18)
+    ctx.rule("R02.4", "id allocation: before insertion, dense tag ids, tag key == stored fields", 3)
+    ctx.rule("R02.5", "store after assemble; values() in insertion order; no overrides", 17)
     if who_may_write:
         ctx.rule("R02.6", "only DataAdapter methods write the lookup tables", 9)
     c = C02(ctx)
